@@ -154,6 +154,19 @@ def handle (op : String) (args : List String) : Option (String × String) :=
   | "i.iter64", [a, cs] => do
     let a ← parseBigInt a; let cs ← parseCalls cs
     pure (showRun (run64 cs (U64Digits.new a.mag)), showRun (specRun cs (digitsBase B (val a.mag))))
+  -- api-coverage: provided `to_ne_bytes` / `from_ne_bytes` (num-traits; x86_64 is little-endian: the `_le` forms)
+  | "u.to_ne_bytes", [a] => do
+    let a ← parseLimbs a
+    pure (sb (toBytesLe a), sb (.ok (oBytes (val a))))
+  | "u.from_ne_bytes", [b] => do
+    let b ← parseBytes b
+    pure (su (fromBytesLe b), su (.ok (ofNat (valBase 256 b))))
+  | "i.to_ne_bytes", [a] => do
+    let a ← parseBigInt a
+    pure (sb (toSignedBytesLe a), sb (.ok (oSigned a.val)))
+  | "i.from_ne_bytes", [b] => do
+    let b ← parseBytes b
+    pure (si (fromSignedBytesLe b), si (.ok (BigInt.ofInt (tcDecode b))))
   | _, _ => none
 
 end NB.Drv.C09
